@@ -714,6 +714,10 @@ func (db *RockDB) SetRange(ts int64, rawKey []byte, offset int, value []byte) (i
 	if realV == nil && !keyInfo.Expired {
 		db.IncrTableKeyCount(keyInfo.Table, 1, db.wb)
 	}
+	if keyInfo.Expired {
+		// the old value is dead, the write starts from empty
+		realV = nil
+	}
 	extra := offset + len(value) - len(realV)
 	if extra > 0 {
 		realV = append(realV, make([]byte, extra)...)
@@ -789,6 +793,10 @@ func (db *RockDB) Append(ts int64, rawKey []byte, value []byte) (int64, error) {
 	keyInfo, realV, err := db.prepareKVValueForWrite(ts, rawKey, false)
 	if err != nil {
 		return 0, err
+	}
+	if keyInfo.Expired {
+		// the old value is dead, the write starts from empty
+		realV = nil
 	}
 	if len(realV)+len(value) > MaxValueSize {
 		return 0, errValueSize
